@@ -173,6 +173,7 @@ def run_property(prop, tier, seed, args):
 
     # classify failures: known finding or violation (with replay)
     violations, known_lines = [], []
+    known_obl = set()
     replay_cache = {}
     os.makedirs(os.path.join(VERIF, "replays"), exist_ok=True)
     for f in failures:
@@ -182,6 +183,8 @@ def run_property(prop, tier, seed, args):
             line = f"KNOWN-FINDING: property={prop} {k.get('what', f['obligation'])}"
             if line not in known_lines:
                 known_lines.append(line)
+            if f["index"] is not None:
+                known_obl.add(f["obligation"])
             continue
         rep = f.get("replayed")
         if rep is None and f["index"] is not None and all_units[f["index"]].replay is not None:
@@ -210,7 +213,7 @@ def run_property(prop, tier, seed, args):
     wall = time.time() - t0
     if not args.no_evidence and args.only is None:
         write_evidence(mod, prop, tier, seed, nobl, ndis, functions, samples, bounded, violations, known_lines,
-                       undecided, solver_ms, backends, wall, ncanary_ok, canary_bad)
+                       undecided, solver_ms, backends, wall, ncanary_ok, canary_bad, sorted(known_obl))
 
     for line in known_lines:
         print(line)
@@ -241,10 +244,13 @@ def run_property(prop, tier, seed, args):
 
 
 def write_evidence(mod, prop, tier, seed, nobl, ndis, functions, samples, bounded, violations, known_lines,
-                   undecided, solver_ms, backends, wall, ncanary_ok, canary_bad):
+                   undecided, solver_ms, backends, wall, ncanary_ok, canary_bad, known_obl=()):
     level = getattr(mod, "LEVEL", "proof")
     cov = {
-        "obligations": nobl,
+        # obligations that fail exactly as a listed known finding are reported separately (they are not discharged and
+        # not claimed); `obligations` counts the ones this run set out to discharge
+        "obligations": nobl - len(known_obl),
+        "obligations_failing_as_listed_known_findings": list(known_obl),
         "discharged": ndis,
         "checker_cmd": f"./check {prop} --tier {tier}  (pyvc: VC generation from $VERIF_REPO/src/ckl/*.py via ast, z3 "
                        f"{_z3v()} per obligation per path, cvc5 1.0.3 for z3 unknowns)",
